@@ -13,6 +13,10 @@ F(recs) == [hdr |-> <<"FORMAT/GT", "FORMAT/GQ">>, recs |-> recs]
 \* two samples x two records
 Small == { F(<< R(1, <<C(<<0, 1>>), C(<<1, 0>>)>>), R(2, <<C(<<1, 0>>), C(<<1, 1>>)>>) >>),
            F(<< R(1, <<CPS(<<1, 0>>, 10), CHP(<<0, 1>>, 10, 2, 1)>>), R(2, <<CPS(<<0, 1>>, 10), CPQ(<<0, 1>>)>>) >>) }
+\* two samples x three records: record 2 is an indel (cfg: IndelSites = {2}), record 3 a multi-ALT record no run
+\* supports (NeverSites = {3}) that arrives phased by another tool, in a different encoding per sample
+Skips == { F(<< R(1, <<C(<<1, 0>>), CHP(<<0, 1>>, 10, 2, 1)>>), R(2, <<CPS(<<1, 0>>, 10), C(<<0, 1>>)>>),
+                R(3, <<CPS(<<2, 1>>, 10), CHP(<<1, 2>>, 10, 2, 1)>>) >>) }
 \* two samples x three records: sample 1 heterozygous everywhere (one GT unsorted), sample 2 has a homozygous site
 Medium == { F(<< R(1, <<C(<<0, 1>>), C(<<0, 1>>)>>), R(2, <<C(<<1, 0>>), C(<<1, 1>>)>>), R(3, <<C(<<0, 1>>), CPQ(<<1, 0>>)>>) >>) }
 \* one sample x three records, for history emission
@@ -21,13 +25,14 @@ One == { F(<< R(1, <<C(<<0, 1>>)>>), R(2, <<C(<<1, 0>>)>>), R(3, <<C(<<0, 1>>)>>
 NoHist == <<f, f0, last>>
 
 (* ---- emission of command histories (P is irrelevant here: one canonical phasing per step) ---- *)
-OnePhasing(g, T) == { CHOOSE P \in PhasingChoices(g, T) : \A s \in T : \A i \in HetSites(g, s) : P[s][i] # NoPhase }
+OnePhasing(g, T, snvs) == { CHOOSE P \in PhasingChoices(g, T, snvs) :
+                               \A s \in T : \A i \in HetSites(g, s) \cap Supported(snvs) : P[s][i] # NoPhase }
 EmitNext == /\ f0' = f0
             /\ Len(hist) < Depth
-            /\ \/ UnphaseStep /\ hist' = Append(hist, [op |-> "U", tag |-> "", T |-> << >>])
-               \/ \E tag \in Tags, T \in Targets : \E P \in OnePhasing(f, T) :
-                     /\ PhaseStep(tag, T, P)
-                     /\ hist' = Append(hist, [op |-> "P", tag |-> tag, T |-> SetToSeq(T)])
+            /\ \/ UnphaseStep /\ hist' = Append(hist, [op |-> "U", tag |-> "", T |-> << >>, snvs |-> FALSE])
+               \/ \E tag \in Tags, T \in Targets, snvs \in SnvsOpts : \E P \in OnePhasing(f, T, snvs) :
+                     /\ PhaseStep(tag, T, snvs, P)
+                     /\ hist' = Append(hist, [op |-> "P", tag |-> tag, T |-> SetToSeq(T), snvs |-> snvs])
 EmitSpec == Init /\ [][EmitNext]_vars
 Emit == IF Len(hist) >= 1 THEN PrintT(<<"BEHAVIOUR", ToJson(hist)>>) ELSE TRUE
 =============================================================================
